@@ -1706,7 +1706,7 @@ func runTop(c *Ctx, fn *ssa.Function, fc *FuncContract) (err error) {
 		for _, f := range c.typeFacts(n, p.Type(), 0) {
 			c.assert(f)
 		}
-		fr.assumeAlive(n, p.Type())
+		fr.assumeAliveDeep(n, p.Type(), 1)
 		if i == 0 && fn.Signature.Recv() != nil && c.sortOf(p.Type()) == "Ref" {
 			c.assert("(not (= " + n + " null))")
 			fr.nonNil[p] = true
@@ -1851,7 +1851,18 @@ func runTop(c *Ctx, fn *ssa.Function, fc *FuncContract) (err error) {
 			}
 			if !used && !c.dry {
 				// pattern may match through an alternative name; checked in matchedPatterns
-				if !fr.patternSeen(cs.Pattern) {
+				bare := cs.Pattern
+				if strings.Contains(bare, "#") {
+					var alts []string
+					for _, a := range strings.Split(bare, "|") {
+						if i := strings.Index(a, "#"); i >= 0 {
+							a = a[:i]
+						}
+						alts = append(alts, a)
+					}
+					bare = strings.Join(alts, "|")
+				}
+				if !fr.patternSeen(bare) {
 					fr.bindingFailure(&Clause{Label: "call-" + cs.Pattern, Where: fc.Where, Src: "call pattern matches no call"}, fmt.Errorf("no call matches %q", cs.Pattern))
 				}
 			}
